@@ -121,6 +121,24 @@ struct H {
     v: Value,
 }
 static HIST: Mutex<Vec<H>> = Mutex::new(Vec::new());
+
+/// Thread-exit effect: a thread-local created before its thread touches tracing or log, whose destructor logs one
+/// record through the bridge while the thread exits (the thread has no scope left; the global default applies).
+struct LateLog(usize);
+impl Drop for LateLog {
+    fn drop(&mut self) {
+        fault("log_record_in_tls_destructor");
+        let inv = detsim::stamp();
+        if log::Level::Info <= log::max_level() {
+            log::logger().log(&log::Record::builder().args(format_args!("late")).level(log::Level::Info).target("app").build());
+        }
+        let ret = detsim::stamp();
+        HIST.lock().unwrap().push(H { gi: usize::MAX - 1, t: self.0, op: "log".into(), applied: true, inv, ret, v: json!({"level": 3, "target": "app", "msg": "late"}), ..Default::default() });
+    }
+}
+thread_local! {
+    static LATE_LOG: std::cell::RefCell<Option<LateLog>> = std::cell::RefCell::new(None);
+}
 static TURN: AtomicUsize = AtomicUsize::new(0);
 static COLLECTORS: Mutex<Vec<Option<(Dispatch, u8, Vec<String>)>>> = Mutex::new(Vec::new());
 static SPANS: Mutex<Vec<Option<(tracing::Span, u64, usize, bool)>>> = Mutex::new(Vec::new()); // (span, uid, site, bare)
@@ -259,6 +277,15 @@ fn exec_step(gi: usize, t: usize, s: &Value, guards: &mut Vec<dispatch::DefaultG
                             sp
                         }
                         2 => sp.entered().exit(),
+                        3 => {
+                            // fault: the span is left by a guard dropped while a panic (caught) unwinds
+                            fault("exit_by_unwinding");
+                            let _ = std::panic::catch_unwind(std::panic::AssertUnwindSafe(|| {
+                                let _g = sp.enter();
+                                panic!("injected panic while a span is entered");
+                            }));
+                            sp
+                        }
                         _ => {
                             sp.in_scope(|| {});
                             sp
@@ -276,7 +303,16 @@ fn exec_step(gi: usize, t: usize, s: &Value, guards: &mut Vec<dispatch::DefaultG
                     h.uid = u;
                     h.site = site;
                     h.ok = bare;
-                    drop(sp);
+                    if s["unwind"].as_bool().unwrap_or(false) {
+                        // fault: the handle is dropped by a panic (caught) unwinding through its owner's frame
+                        fault("handle_dropped_by_unwinding");
+                        let _ = std::panic::catch_unwind(std::panic::AssertUnwindSafe(move || {
+                            let _owned = sp;
+                            panic!("injected panic while a span handle is alive");
+                        }));
+                    } else {
+                        drop(sp);
+                    }
                 }
                 None => h.applied = false,
             }
@@ -370,20 +406,22 @@ impl Engine for LogEngine {
                 steps.push(match rng.below(10) {
                     0..=3 => json!({"t": t, "op": "event", "site": rng.below(20), "with_message": rng.chance(1, 4)}),
                     4 | 5 => json!({"t": t, "op": "span_new", "slot": slot, "site": rng.below(20), "bare": rng.chance(1, 3)}),
-                    6 | 7 => json!({"t": t, "op": "enter_exit", "slot": slot, "how": rng.below(3)}),
-                    _ => json!({"t": t, "op": "drop", "slot": slot}),
+                    6 | 7 => json!({"t": t, "op": "enter_exit", "slot": slot, "how": rng.below(4)}),
+                    _ => json!({"t": t, "op": "drop", "slot": slot, "unwind": rng.chance(1, 4)}),
                 });
             }
         }
         let sched = Sched::op_order(rng.next_u64());
-        json!({"engine": "log", "prop": g.prop, "mode": g.mode, "cfg": {"dir": dir, "threads": nthreads}, "steps": steps, "sched": serde_json::to_value(&sched).unwrap()})
+        json!({"engine": "log", "prop": g.prop, "mode": g.mode, "cfg": {"dir": dir, "threads": nthreads, "late_log": rng.chance(1, 3)}, "steps": steps, "sched": serde_json::to_value(&sched).unwrap()})
     }
 
     fn execute(&self, plan: &Value) -> RunResult {
+        std::panic::set_hook(Box::new(|_| {}));
         let sched = plan_sched(plan);
         let dir = plan["cfg"]["dir"].as_str().unwrap_or("log2trace").to_string();
         let nthreads = plan["cfg"]["threads"].as_u64().unwrap_or(1).max(1) as usize;
         let steps: Vec<Value> = plan["steps"].as_array().cloned().unwrap_or_default();
+        let late_log = plan["cfg"]["late_log"].as_bool().unwrap_or(false) && dir == "log2trace";
         *COLLECTORS.lock().unwrap() = vec![None, None, None, None];
         *SPANS.lock().unwrap() = (0..4).map(|_| None).collect();
         let body = move || {
@@ -400,7 +438,10 @@ impl Engine for LogEngine {
             }
             let indexed: Vec<(usize, usize, Value)> = steps.iter().enumerate().map(|(gi, s)| (gi, (s["t"].as_u64().unwrap_or(0) as usize) % nthreads, s.clone())).collect();
             TURN.store(0, Ordering::SeqCst);
-            let run = |t: usize, mine: Vec<(usize, Value)>| {
+            let run = move |t: usize, mine: Vec<(usize, Value)>| {
+                if t > 0 && late_log {
+                    LATE_LOG.with(|s| *s.borrow_mut() = Some(LateLog(t)));
+                }
                 let mut guards = vec![];
                 for (gi, s) in mine {
                     detsim::block_until("turn", None, || TURN.load(Ordering::SeqCst) == gi);
